@@ -21,6 +21,7 @@ type vChain struct {
 	curResp  *Response
 	expAttr  map[string]int
 	wrong    bool
+	curRec   *vRec // the recorder behind the response wrapper most recently passed on
 	panicAt  int // position at which to panic (-1 none): 2*i before filter i passes on, 2*i+1 after; 2*n handler before write, 2*n+1 after
 	panicVal string
 }
@@ -47,7 +48,9 @@ func (k *vChain) filter(f *vFilt, pos int) FilterFunction {
 			return
 		}
 		if f.replace {
-			nreq, nresp := NewRequest(req.Request), NewResponse(resp.ResponseWriter)
+			// like a status-capturing wrapper: the pair passed on writes somewhere else
+			k.curRec = vNewRec()
+			nreq, nresp := NewRequest(req.Request), NewResponse(k.curRec)
 			k.curReq, k.curResp = nreq, nresp
 			k.expAttr = map[string]int{}
 			chain.ProcessFilter(nreq, nresp)
@@ -185,6 +188,9 @@ func H_C06(nc, ns, nr, mwAt, mode int) {
 		verifCover("after-warmup")
 	}
 	rec := vNewRec()
+	k.curRec = rec
+	fp := verifFingerprint(c)
+	verifFrameBegin("dispatch", k, &plainRan)
 	switch mode {
 	case 0:
 		c.Dispatch(rec, vReq{method: "GET", path: "/t/a"}.http())
@@ -193,6 +199,8 @@ func H_C06(nc, ns, nr, mwAt, mode int) {
 	case 2:
 		c.ServeHTTP(rec, vReq{method: "GET", path: "/plain"}.http())
 	}
+	verifFrameEnd()
+	verifAssert(verifFingerprint(c) == fp, "native: C06: serving a request wrote to state shared with other requests")
 	got := vLogString(k.log)
 	verifObserveStr("log", got)
 	verifObserveInt("status", rec.code())
@@ -220,9 +228,15 @@ func H_C06(nc, ns, nr, mwAt, mode int) {
 	verifAssert(!k.wrong, "C06: a filter or the handler received a different request/response pair or attributes than the previous filter passed on")
 	if mode == 1 {
 		verifCover("routing-failure")
+		// the error response goes to the pair the last filter passed on (if every filter passed on)
+		allPassed := true
+		for i := 0; i < nc; i++ {
+			allPassed = vAnd(allPassed, !k.filts[i].stop)
+		}
+		verifAssert(vImp(allPassed, k.curRec.code() == 404), "C06: the routing error was not written to the response the container filters passed on")
 	}
 	if mode == 0 && len(k.log) > 0 && k.log[len(k.log)-1] == "H" {
 		verifCover("handler-ran")
-		verifAssert(rec.code() == 201, "C06: the handler's response was not delivered")
+		verifAssert(k.curRec.code() == 201, "C06: the handler's response was not delivered to the response the filters passed on")
 	}
 }
